@@ -45,15 +45,16 @@ structure Entry (α : Type) where
   neg : Bool
   /-- `len(old_alias_relation.aliases(alias)) > 1` -/
   oldMulti : Bool
-  /-- the name without its sign is in `old_alias_relation.canonical_variables` -/
-  oldCanon : Bool
+  /-- the outcome of the code's test `alias in old_alias_relation.canonical_variables`.  The code looks
+      the *signed* string up in a set of unsigned names, so for a negative alias this is `false` whatever
+      the variable was (finding C16-F2); the harness supplies the outcome as the current code computes it. -/
+  inCanon : Bool
   attrs : Attrs α
 deriving Repr
 
-/-- The `continue` test.  The code tests the *signed* string against `canonical_variables`
-    (whose elements never carry a sign), so a negative alias is "not canonical" whatever it was. -/
+/-- The `continue` test ("already handled in a previous pass"). -/
 def Entry.skipped {α : Type} (e : Entry α) : Bool :=
-  e.oldMulti && (e.neg || !e.oldCanon)
+  e.oldMulti && !e.inCanon
 
 section
 variable {α : Type} [Max α] [Min α] [Neg α]
@@ -87,6 +88,6 @@ end
 
 /-- an alias met for the first time (no earlier pass knew it) -/
 def fresh {α : Type} (neg : Bool) (a : Attrs α) : Entry α :=
-  { neg := neg, oldMulti := false, oldCanon := false, attrs := a }
+  { neg := neg, oldMulti := false, inCanon := false, attrs := a }
 
 end PymocaVerif.AliasMerge
